@@ -1,6 +1,6 @@
 """C13: sqrt: NaN for negatives, 0 at 0, non-negative and bounded on the domain (decided for both algorithms);
-within one ulp / monotone / exact on squares decided for the std::sqrt algorithm by a shape lemma; not decided for the
-abacus loop (quadratic loop invariant, DESIGN section 6)."""
+within one ulp / monotone / exact on squares decided for the std::sqrt algorithm by a shape lemma and for the abacus loop by an
+inductive invariant checked by abstract execution of one iteration per digit position (checks/isqrt.py)."""
 from . import common, lib
 from .lib import M, FIN, ANYFX, E, sym
 from fxai.interp import Broken
@@ -69,6 +69,7 @@ def run(tier, seed):
     if tier == "quick":
         plan = [("K17", ["w_sqrt", "w_sqrt_std"]), ("K17A", ["w_sqrt", "w_sqrt_abacus"]), ("K20", ["w_sqrt"])]
     shape_done = 0
+    abacus_done = []
     for cfg, ws in plan:
         try:
             ctx = lib.Ctx(cfg, [], only=set(ws))
@@ -100,6 +101,38 @@ def run(tier, seed):
                     if a.status == "violation":
                         V.oblige(False)
                         V.violation(a.kind, a.site, "%s in %s(%s) [%s] at %s" % (a.kind, w, a.witness, cfg, a.where), lib.rp(r, a.witness, a.kind))
+                # the abacus algorithm: inductive loop invariant, one abstract iteration per digit position
+                uses_abacus = (w == "w_sqrt_abacus") or (w == "w_sqrt" and cfg == "K17A")
+                if uses_abacus:
+                    from . import isqrt
+                    import math
+                    box = ("i", 1, (1 << 48) - 1)
+                    rb = ctx.run(w, [box])
+                    n0 = V.obligations
+                    inf = isqrt.prove(V, rb, cfg, box, w[2:])
+                    okn = inf is not None and inf["N"] == str(x.scale(65536)) and inf["N_range"][0] >= 0 and inf["N_range"][1] < (1 << 64)
+                    V.oblige(okn)
+                    if okn:
+                        abacus_done.append({"wrapper": w, "config": cfg, "iterations_checked": inf["steps"], "digit_positions": inf["kmax"] + 1,
+                                            "entry_classes": len(inf["classes"])})
+                    else:
+                        # a concrete argument whose result is not floor(sqrt(65536 raw)) makes it a violation
+                        def bad_isqrt(a, o):
+                            return o[0] != "ret" or o[1] != math.isqrt(a[0] << 16)
+                        import random
+                        hit = None
+                        rnd = random.Random(V.seed)
+                        for p_ in rb.paths[:200]:
+                            args, out = lib.search(rb, p_.state, bad_isqrt, rnd, limit=60)
+                            if args is not None:
+                                hit = (args, out)
+                                break
+                        if hit:
+                            V.violation("sqrt(x) within one ulp below the real square root (abacus)", w[2:],
+                                        "%s(%d) [%s] %s but floor(sqrt(65536*raw)) = %d" % (w, hit[0][0], cfg, lib.out_str(hit[1]), math.isqrt(hit[0][0] << 16)),
+                                        lib.rp(rb, hit[0], "abacus isqrt"))
+                        elif inf is not None:
+                            V.inconc("%s [%s]: the loop computes floor(sqrt(N)) for N = %s, not for 65536*raw" % (w, cfg, inf["N"]))
                 # the std algorithm: shape lemma on the non-NaN paths of the domain
                 uses_std = (w == "w_sqrt_std") or (w == "w_sqrt" and cfg in ("K17", "K20"))
                 if uses_std:
@@ -123,6 +156,14 @@ def run(tier, seed):
             "returned value number is fptosi(fma_or_mul_add(sqrt(sitofp(raw)/65536.0), 65536.0, +0.5)); sitofp is exact below 2^53, the "
             "division and multiplication by 2^16 are exact, sqrt is correctly rounded, adding 0.5 and truncating rounds to nearest, so "
             "|result - 65536*sqrt(x)| <= 0.5 + 2^-19 < 1 ulp, the map is a composition of non-decreasing maps (monotone) and exact on squares. "
-            "NOT DECIDED: < 1 ulp, monotone and exact-on-squares for the abacus loop (its invariant result^2 <= value < (result+1)^2 is "
-            "quadratic-relational, outside the linear domain).")
-    return V.finish("other", expl, "./fx check C13 --tier %s" % tier, extra={"plan": plan, "std_paths_with_shape_lemma": shape_done})
+            "For the abacus algorithm an inductive invariant: at the loop head with pwr4 == 4^k, scaled == N - a^2, result == 2^(k+1) a, "
+            "a^2 <= N < (a + 2^(k+1))^2 (N = 65536 raw, a the partial root, a multiple of 2^(k+1)). a^2 is carried by an opaque symbol AA with "
+            "linear consequences; for every digit position k = 31..0 one loop iteration is executed abstractly from that head state and every "
+            "path to the back edge must deliver (a + c, AA + 2 c a + c^2) with c in {0, 2^k} satisfying the invariant for k-1 (the binomial "
+            "identity is the only non-linear fact used); the k == 0 iteration leaves the loop returning r = a + c with r^2 <= N < (r+1)^2; every "
+            "first arrival at the loop satisfies the invariant with a == 0. Hence sqrt_abacus(raw) == floor(sqrt(65536 raw)) for 0 < raw < 2^48: "
+            "less than one ulp below the real root, non-decreasing, exact on squares. Together with the std::sqrt shape lemma the two algorithms "
+            "differ by at most one ulp. Every clause of C13 is decided.")
+    if not abacus_done:
+        V.broke("no abacus loop analysed")
+    return V.finish("proof", expl, "./fx check C13 --tier %s" % tier, extra={"plan": plan, "std_paths_with_shape_lemma": shape_done, "abacus_invariant": abacus_done})
